@@ -35,7 +35,9 @@ CONSTANTS Scope,      \* feature ids that may be chosen
           PqSet,      \* route path spellings
           ErrSet,     \* seeded structural errors
           Bases,      \* base contexts: "none" | "pull" | "deliver" | "auto" (by channel), with suffix "v": plus a vars block
-          Orders, Cms \* top-level order classes / comment classes
+          Orders, Cms,\* top-level order classes / comment classes
+          NmScope,    \* features that may be written a second time (near-miss programs, exhaustive mode); {} = none
+          NmVC        \* value classes of the extra instance
 
 VARIABLES p,      \* the abstract program built so far
           last,   \* slot key of the last chosen feature (exhaustive mode)
@@ -204,13 +206,13 @@ GenInit ==
   /\ IF GenDepth = 0
      THEN /\ \E err \in ErrSet, base \in Bases, order \in Orders, cm \in Cms :
                \E rs \in RouteSeqs(err) :
-                 /\ p = [cm |-> cm, order |-> order, err |-> err, routes |-> rs, items |-> BaseItems(base, rs)]
+                 /\ p = [cm |-> cm, order |-> order, err |-> err, routes |-> rs, items |-> BaseItems(base, rs), nm |-> << >>]
                  /\ plan = [rt |-> Len(rs), base |-> base]
           /\ nbase = Len(p.items)
           /\ Emit(p)
      ELSE \* simulation: the routes are created by the first steps of the behaviour (too many shapes to enumerate)
           /\ \E err \in ErrSet, order \in Orders, cm \in Cms :
-               p = [cm |-> cm, order |-> order, err |-> err, routes |-> << >>, items |-> << >>]
+               p = [cm |-> cm, order |-> order, err |-> err, routes |-> << >>, items |-> << >>, nm |-> << >>]
           /\ plan \in [rt : MinR .. MaxR, base : Bases]
           /\ p.err = "dup_path" => plan.rt >= 2
           /\ nbase = 0
@@ -234,10 +236,32 @@ AddRoute ==
           IN p' = [p EXCEPT !.routes = rs, !.items = @ \o pa \o ri]
   /\ UNCHANGED <<last, depth, done, nbase, plan>>
 
+\* Near-miss: one extra instance for a slot this behaviour created (or for its exclusive alternative), in every
+\* spelling, before and after it, alone or with one single-value child.  It is the last step of a behaviour.
+LKids(f)  == {g \in FeatIds : FT[g].par = f /\ IsLeafL(g)}
+NmSps(f)  == {s \in (IF f = "r.auth_hmac" THEN {"block"} ELSE FT[f].sps) :
+                (FT[f].nmax > 1 /\ "line" \in FT[f].sps) => s = "line"}
+
+AddNm ==
+  /\ NmScope # {} /\ p.nm = << >>
+  /\ \E k \in (nbase + 1) .. Len(p.items) :
+       LET it == p.items[k] IN
+       \E f \in ({it.f} \cup {h \in FeatIds : <<it.f, h>> \in Partner}) \cap NmScope :
+       \E sp \in NmSps(f), pos \in {"before", "after"} :
+       \E v \in (IF UsesV(f, sp) THEN VFor(f) \cap (NmVC \cup {"bare"}) ELSE {"-"}) :
+       \E kf \in {"-"} \cup (IF sp \in FT[f].blk THEN LKids(f) ELSE {}) :
+       \E kv \in (IF kf = "-" THEN {"-"} ELSE NmVC) :
+         LET x == [r |-> it.r, f |-> f, i |-> (IF f = it.f \/ IdxRootT[f] # "-" THEN it.i ELSE 1), sp |-> sp,
+                   v |-> v, v2 |-> (IF UsesV2(f, sp, 1) THEN "bare" ELSE "-"), n |-> 1,
+                   pos |-> pos, kf |-> kf, kv |-> kv]
+         IN /\ WFNm(x, Items(p), Len(p.routes))
+            /\ p' = [p EXCEPT !.nm = << x >>]
+  /\ UNCHANGED <<last, depth>>
+
 GenNext ==
   IF GenDepth = 0
-  THEN /\ depth < K
-       /\ AddStep
+  THEN /\ \/ depth < K /\ p.nm = << >> /\ AddStep
+          \/ AddNm
        /\ UNCHANGED <<done, nbase, plan>>
        /\ Emit(p')
   ELSE \/ AddRoute
